@@ -201,12 +201,15 @@ theorem stmtLoop_res (sm : List String) (ss : List Text) (w : World) (r : Revisi
   | nil => simp [stmtLoop]
   | cons s rest ih =>
     unfold stmtLoop
-    simp only
-    split
-    · simp
-    · split
-      · simp
-      · exact ih _ _
+    rcases hE : execStmt w s with ⟨w1, b⟩
+    cases b with
+    | true => simp
+    | false =>
+      simp only
+      rcases hW : writeRevision w1 (bump sm r) with ⟨w2, b2⟩
+      cases b2 with
+      | true => simp
+      | false => exact ih _ _
 
 theorem deferred_res_cases (w : World) (r : Revision) (res : Res) :
     (∀ i b, res ≠ .historyChanged i b) → res ≠ .panic →
@@ -219,10 +222,60 @@ theorem deferred_res_cases (w : World) (r : Revision) (res : Res) :
   | historyChanged i b => exact absurd rfl (h1 i b)
   | panic => exact absurd rfl h2
 
+/-! ### unfolding equations of the pieces of `execute` -/
+
+theorem executeFrom_fail {fixed : Bool} {H : Text → String} {w w1 : World} {m : MFile} {r : Revision}
+    (h : writeRevision w r = (w1, true)) : executeFrom fixed H w m r = (w1, .writeRev) := by
+  unfold executeFrom; rw [h]
+
+theorem executeFrom_ok {fixed : Bool} {H : Text → String} {w w1 : World} {m : MFile} {r : Revision}
+    (h : writeRevision w r = (w1, false)) : executeFrom fixed H w m r = afterStart fixed H w1 m r := by
+  unfold executeFrom; rw [h]
+
+/-- the value the hash check of `afterStart` scrutinises. -/
+def checkOf (fixed : Bool) (H : Text → String) (m : MFile) (r : Revision) : Option (Sum Nat Unit) :=
+  if r.applied > 0 then checkLoop fixed (sums H m.stmts) r.partialHashes r.applied (r.applied + 1) 0 else none
+
+theorem afterStart_none {fixed : Bool} {H : Text → String} {w : World} {m : MFile} {r : Revision}
+    (h : checkOf fixed H m r = none) : afterStart fixed H w m r = runStmts fixed H w m r := by
+  unfold afterStart; unfold checkOf at h; rw [h]
+
+theorem afterStart_inl {fixed : Bool} {H : Text → String} {w : World} {m : MFile} {r : Revision} {i : Nat}
+    (h : checkOf fixed H m r = some (.inl i)) :
+    afterStart fixed H w m r = deferred w r (.historyChanged (i + 1) false) := by
+  unfold afterStart; unfold checkOf at h; rw [h]
+
+theorem afterStart_inr {fixed : Bool} {H : Text → String} {w : World} {m : MFile} {r : Revision}
+    (h : checkOf fixed H m r = some (.inr ())) : afterStart fixed H w m r = (w, .panic) := by
+  unfold afterStart; unfold checkOf at h; rw [h]
+
+theorem runStmts_res {H : Text → String} {w : World} {m : MFile} {r : Revision}
+    (hle : r.applied ≤ m.stmts.length) :
+    (runStmts true H w m r).2 ≠ .panic ∧ ∀ i b, (runStmts true H w m r).2 ≠ .historyChanged i b := by
+  unfold runStmts
+  have : ¬ r.applied > m.stmts.length := by omega
+  simp only [this, if_false, if_true]
+  have h3 := stmtLoop_res (sums H m.stmts) (m.stmts.drop r.applied) w { r with total := m.stmts.length }
+  rcases hL : stmtLoop (sums H m.stmts) (m.stmts.drop r.applied) w { r with total := m.stmts.length }
+    with ⟨w2, r2, res2⟩
+  rw [hL] at h3
+  simp only at h3
+  rcases h3 with h3 | h3 | h3 <;> subst h3 <;> simp only
+  · have := deferred_res_cases w2 { r2 with partialHashes := [] } .ok (by simp) (by simp)
+    exact ⟨this.2, this.1⟩
+  · have := deferred_res_cases w2 r2 .writeRev (by simp) (by simp)
+    exact ⟨this.2, this.1⟩
+  · have := deferred_res_cases w2 r2 (.stmt false) (by simp) (by simp)
+    exact ⟨this.2, this.1⟩
 
 theorem writeRevision_nofault (w : World) (r : Revision) (h : w.faults = []) :
     writeRevision w r = ({ w with tick := w.tick + 1, revs := upsert r w.revs }, false) := by
   unfold writeRevision World.op
+  simp [h]
+
+theorem execStmt_nofault (w : World) (s : Text) (h : w.faults = []) :
+    execStmt w s = ({ w with tick := w.tick + 1, calls := w.calls ++ [s], journal := w.journal ++ [s] }, false) := by
+  unfold execStmt World.op
   simp [h]
 
 theorem stmtLoop_nofault (sm : List String) (ss : List Text) (w : World) (r : Revision)
@@ -235,20 +288,16 @@ theorem stmtLoop_nofault (sm : List String) (ss : List Text) (w : World) (r : Re
   | nil => simp [stmtLoop, h]
   | cons s rest ih =>
     unfold stmtLoop
-    simp only [World.op, h, List.contains_nil, Bool.false_eq_true, if_false]
-    rw [writeRevision_nofault _ _ (by simp)]
-    simp only [Bool.false_eq_true, if_false]
-    have := ih { journal := w.journal ++ [s], calls := w.calls ++ [s],
-                 revs := upsert { r with partialHashes := r.partialHashes ++ [sm[r.applied]?.getD ""],
-                                         applied := r.applied + 1, error := "", errorStmt := [] } w.revs,
-                 tick := w.tick + 1 + 1, faults := [] }
-      { r with partialHashes := r.partialHashes ++ [sm[r.applied]?.getD ""],
-               applied := r.applied + 1, error := "", errorStmt := [] } rfl
-    obtain ⟨h1, h2, h3, h4, h5, h6, h7⟩ := this
+    rw [execStmt_nofault w s h]
+    simp only
+    rw [writeRevision_nofault _ _ (by simpa using h)]
+    simp only
+    obtain ⟨h1, h2, h3, h4, h5, h6, h7⟩ := ih
+      { w with tick := w.tick + 1 + 1, calls := w.calls ++ [s], journal := w.journal ++ [s],
+               revs := upsert (bump sm r) w.revs } (bump sm r) (by simpa using h)
     refine ⟨h1, ?_, ?_, h4, ?_, h6, h7⟩
     · rw [h2]; simp
     · rw [h3]; simp
-    · rw [h5]; simp; omega
-
+    · rw [h5]; simp [bump]; omega
 
 end Atlas.Exec
